@@ -1,8 +1,9 @@
 /-
-Translator tie: the hand-written model agrees with every shape `tools/gen_lean.py` recognised in the
-source on this run (`Generated/Facts.lean`).  A fact that was not recognised is `none` and its
-theorem is vacuous (that behaviour is then tied by the correspondence check only); a recognised
-shape whose content differs from the model breaks the corresponding theorem.
+Translator tie, wire-level shapes (label lengths, header codes, extension lengths): the hand-written model agrees with every shape `tools/gen_lean.py`
+recognised in the source on this run (`Generated/Facts.lean`).  A fact that was not recognised is `none` and
+its theorem is vacuous (that behaviour is then tied by the correspondence check only); a recognised shape
+whose content differs from the model breaks the corresponding theorem.  The tie is split by subject so that a
+property is only tied to the facts its theorems rest on.
 -/
 import GseVerif.Generated.Facts
 import GseVerif.Model.Memory
@@ -32,26 +33,10 @@ theorem Tie_ext_len (f) (h : extLenFact = some f) (id : Nat) (d : Bytes) :
     (⟨id, .noData, d⟩ : Ext).len = f.2.2.2.2 + PROTOCOL_LEN := by
   unfold extLenFact at h; cases h <;> simp [Ext.len]
 
-theorem Tie_enc_new (f) (h : encNewFact = some f) : f = Enc.new := by
-  unfold encNewFact at h; cases h <;> rfl
-
-theorem Tie_enc_reset (f) (h : encResetFact = some f) (e : Enc) : f e = e.reset := by
-  unfold encResetFact at h; cases h <;> rfl
-
-theorem Tie_enc_disable (f) (h : encDisableFact = some f) (e : Enc) : f e = e.disable := by
-  unfold encDisableFact at h; cases h <;> rfl
-
-theorem Tie_enc_enable (f) (h : encEnableFact = some f) (e : Enc) : f e = e.enable := by
-  unfold encEnableFact at h; cases h <;> rfl
-
-theorem Tie_enc_enableMax (f) (h : encEnableMaxFact = some f) (e : Enc) (n : Nat) : f e n = e.enableMax n := by
-  unfold encEnableMaxFact at h; cases h <;> rfl
-
-theorem Tie_mem_capacity (f) (h : memCapMarginFact = some f) (n sz : Nat) : (Mem.new n sz).cap = n + f := by
-  unfold memCapMarginFact at h; cases h <;> rfl
-
-#print axioms Tie_label_len
-#print axioms Tie_enc_disable
-#print axioms Tie_mem_capacity
-
 end Gse
+
+#print axioms Gse.Tie_label_len
+#print axioms Gse.Tie_labelType_len
+#print axioms Gse.Tie_header_kind
+#print axioms Gse.Tie_header_labelType
+#print axioms Gse.Tie_ext_len
